@@ -2,8 +2,9 @@
    Statements only.  This file collects the panic-freedom statements that exist about the model so
    far, and pins each KNOWN crash of the implementation to a decidable class of inputs:
      F3a  a numeral / arity token whose value does not fit isize / usize     (parse time)
-     F3b  the numeral isize::MIN rendered to TPTP in a debug build           (verify)
      F11  a variable V<n> of the program with n + i > usize::MAX             (tau-star, debug build)
+   (F3b, the numeral isize::MIN rendered to TPTP in a debug build, is repaired in /repo: the
+   rendering of numerals is now total, C16_tptp_numeral_total.)
    Outside the model (exercised only by the malformed-input stream of props/C16.py): the pest
    engine and grammar, clap, I/O, stack depth, termination.
    After the merge with branch `subst`: C17_total and C17_panic_only_on_sort_mismatch (Proofs/
@@ -42,10 +43,15 @@ Theorem C16_arity_panics_iff_out_of_range : forall (ds : string) (n : N),
 Proof. exact parse_usize_panic_iff. Qed.
 Print Assumptions C16_arity_panics_iff_out_of_range.
 
-(* F3b *)
-Theorem C16_tptp_numeral_panics_iff_min : forall n : Z, tptp_numeral n = Panic <-> n = isize_min.
-Proof. exact tptp_numeral_panic_iff. Qed.
-Print Assumptions C16_tptp_numeral_panics_iff_min.
+(* F3b (repaired): the TPTP rendering of a numeral never panics; it is the decimal magnitude,
+   wrapped in $uminus(..) for negative numerals *)
+Theorem C16_tptp_numeral_total : forall n : Z,
+  tptp_numeral n = Value (if (n <? 0)%Z then "$uminus(" ++ nat_str (Z.abs_N n) ++ ")" else nat_str (Z.abs_N n)).
+Proof. exact tptp_numeral_total. Qed.
+Print Assumptions C16_tptp_numeral_total.
+Theorem C16_tptp_numeral_never_panics : forall n : Z, tptp_numeral n <> Panic.
+Proof. exact tptp_numeral_never_panics. Qed.
+Print Assumptions C16_tptp_numeral_never_panics.
 
 (* F11 *)
 Theorem C16_fresh_global_panics_iff_overflow : forall m i : N,
@@ -53,13 +59,15 @@ Theorem C16_fresh_global_panics_iff_overflow : forall m i : N,
 Proof. exact fresh_global_panic_iff. Qed.
 Print Assumptions C16_fresh_global_panics_iff_overflow.
 
-(* witnesses of the known classes (replayed on the real binary by bin/check C16) and boundary cases *)
+(* witnesses of the known classes (replayed on the real binary by bin/check C16), the regression case
+   of the repaired F3b, and boundary cases *)
 Example C16_known_witnesses :
   parse_isize "99999999999999999999" = Panic /\
   parse_isize "9223372036854775808" = Panic /\ parse_isize "9223372036854775807" = Value isize_max /\
   parse_isize "-9223372036854775808" = Value isize_min /\ parse_isize "-9223372036854775809" = Panic /\
   parse_usize "18446744073709551616" = Panic /\ parse_usize "18446744073709551615" = Value usize_max /\
-  tptp_numeral isize_min = Panic /\ tptp_numeral (isize_min + 1) = Value "$uminus(9223372036854775807)" /\
+  tptp_numeral isize_min = Value "$uminus(9223372036854775808)" /\ (* F3b regression: was Panic *)
+  tptp_numeral (isize_min + 1) = Value "$uminus(9223372036854775807)" /\
   parse_isize "-0" = NotAToken /\ parse_isize "007" = NotAToken /\
   fresh_global 18446744073709551615 1 = Panic /\ fresh_global 18446744073709551614 1 = Value "V18446744073709551615".
 Proof. repeat split; vm_compute; reflexivity. Qed.
